@@ -5,9 +5,10 @@ open ProcStack
 /-
 line grammar (whitespace separated tokens):
   scn <ntop> cls{ntop} <nclasses> class{nclasses} <ncbs> code{ncbs}     -- resets the state
-  class := <nsteps> step{nsteps}        step := (N|W|F|R) code        code := <nacts> act{nacts}
-  act   := o | a | u | c<k> | l<k> | x<k>
+  class := <nsteps> step{nsteps}        step := (N|W|F|R|B) code      code := <nacts> act{nacts}
+  act   := o | a | u | c<k> | l<k> | x<k> | i<k>         -- i: child of class k awaited inline; B: step ends with a BaseException
   tick <tid> | resume <tid> | kill <tid> | ext <pid> <cb>      -- ext: `pid.call_soon(cb)` from code outside any task
+  cancel <tid>                                                 -- `task.cancel()` from code outside any task
 output, one line per input line:
   obs=<owner>:<kind>:<cur|->:<stack bottom first, '.' separated>,...  ready=<tid,..> parked=<tid,..> loop=<cur|->
   `err:<name>` once the model state carries an error, `bad` for unparsable input or an ill-formed scenario
@@ -22,6 +23,7 @@ def pAct (s : String) : Option Act :=
     if s.startsWith "c" then k.map .callSoon
     else if s.startsWith "l" then k.map .launch
     else if s.startsWith "x" then k.map .execute
+    else if s.startsWith "i" then k.map .inline
     else none
 
 def pCode : List String → Option (List Act × List String)
@@ -34,7 +36,7 @@ def pCode : List String → Option (List Act × List String)
 
 def pEnd (s : String) : Option End :=
   if s = "N" then some .next else if s = "W" then some .wait else if s = "F" then some .finish
-  else if s = "R" then some .raise else none
+  else if s = "R" then some .raise else if s = "B" then some .raiseBase else none
 
 def pSteps : Nat → List String → List Step → Option (List Step × List String)
   | 0, r, acc => some (acc.reverse, r)
@@ -85,7 +87,7 @@ def hookName : Hook → String
 
 def kindName : Kind → String
   | .seg => "seg" | .aw => "aw" | .o => "o" | .cbseg => "cbseg" | .cbaw => "cbaw" | .lret => "lret"
-  | .xret => "xret" | .csret => "csret" | .uret => "uret" | .hook h => "h." ++ hookName h
+  | .xret => "xret" | .csret => "csret" | .uret => "uret" | .iret => "iret" | .absorbed => "absorbed" | .hook h => "h." ++ hookName h
 
 def showCur : Option Pid → String
   | none => "-" | some p => toString p
@@ -127,6 +129,10 @@ def handle (st : Option State) (line : String) : Option State × String :=
   | ["kill", t] =>
     match st, t.toNat? with
     | some σ, some t => let σ' := step σ (.kill t); (some σ', showState σ.log.length σ')
+    | _, _ => (st, "bad")
+  | ["cancel", t] =>
+    match st, t.toNat? with
+    | some σ, some t => let σ' := step σ (.cancel t); (some σ', showState σ.log.length σ')
     | _, _ => (st, "bad")
   | ["ext", p, cb] =>
     match st, p.toNat?, cb.toNat? with
